@@ -448,7 +448,9 @@ def wrConnected (w : World) (s : Nat) : Rc × World :=
 /-- gw_proc_connect_error(r, hctx->host, hctx->proc, hctx->pid, …) -/
 def slotConnectError (w : World) (s : Nat) : World :=
   match (w.linkOf s).host, (w.linkOf s).proc with
-  | some h, some p => connectError w h p (w.auxOf s).pid
+  | some h, some p =>
+    -- (hctx->proc points into host->first…: an index ≥ nprocs has no C counterpart)
+    if p < (w.host h).nprocs then connectError w h p (w.auxOf s).pid else w
   | _, _ => w
 
 /-- case GW_STATE_CONNECT_DELAYED -/
@@ -682,21 +684,21 @@ def opArrive (w : World) (s key : Nat) : World :=
       let w1 := w1.emit (.arrive (some h))
       runCon (conFuel w1) w1 s
 
+/-- what the kernel may report: IN/OUT/RDHUP only if registered, HUP/ERR always -/
+def evMask (a : Aux) (mask : Nat) : Nat :=
+  (if mask.testBit 0 ∧ a.evIn then 1 else 0) + (if mask.testBit 1 ∧ a.evOut then 2 else 0)
+    + (if mask.testBit 2 then 4 else 0) + (if mask.testBit 3 ∧ a.evRdhup then 8 else 0)
+    + (if mask.testBit 4 then 16 else 0)
+
 def opEvent (w : World) (s mask : Nat) : World :=
   if s ≥ w.nslots then w.emit (.note "bad")
+  else if !((w.linkOf s).hctx && (w.linkOf s).fd) then w.emit (.note "noev")
+  else if evMask (w.auxOf s) mask = 0 then w.emit (.note "noev")
   else
-    let l := w.linkOf s
-    let a := w.auxOf s
-    if !(l.hctx && l.fd) then w.emit (.note "noev")
-    else
-      let rev := (if mask.testBit 0 ∧ a.evIn then 1 else 0) + (if mask.testBit 1 ∧ a.evOut then 2 else 0)
-               + (if mask.testBit 2 then 4 else 0) + (if mask.testBit 3 ∧ a.evRdhup then 8 else 0)
-               + (if mask.testBit 4 then 16 else 0)
-      if rev = 0 then w.emit (.note "noev")
-      else
-        -- gw_handle_fdevent: hctx->revents |= revents; joblist_append(con)
-        let w1 := (w.emit (.fdev rev)).updAux s fun a => { a with revents := a.revents ||| rev }
-        runJobs { w1 with jobs := [s] }
+    -- gw_handle_fdevent: hctx->revents |= revents; joblist_append(con)
+    let rev := evMask (w.auxOf s) mask
+    let w1 := (w.emit (.fdev rev)).updAux s fun a => { a with revents := a.revents ||| rev }
+    runJobs { w1 with jobs := [s] }
 
 def opWake (w : World) (s : Nat) : World :=
   if s ≥ w.nslots then w.emit (.note "bad")
